@@ -391,3 +391,85 @@ def free_then_null(f, rep, rule, recs, releasers=("free", "orc_code_free")):
                   "%s frees %s and can return with the dangling pointer still in the field (double free / use after free later)" % (f.name, p),
                   line=c.line)
     return n
+
+
+def check_code_exec_nonnull(db, rep, rule):
+    """Every value the compile driver stores into program->code_exec (and from there into orccode->exec, which generated
+    wrappers call directly) is a definite function pointer: the address of a function, the JIT entry point, or a pointer
+    field that is known to be non-NULL at the store."""
+    f = db.func("orc_compiler_compile_program", "orccompiler")
+    fc = Facts(f)
+    n = 0
+    for st in f.walk():
+        if not (st.k == "BinaryOperator" and st.op == "=" and (access_path(st.c[0]) or "").endswith("->code_exec")):
+            continue
+        n += 1
+        v = strip_casts(st.c[1])
+        ok, why = False, ""
+        if v is not None and v.k == "DeclRefExpr" and v.get("dk") == "func":
+            ok, why = True, "address of %s" % v.name
+        elif v is not None and v.k == "UnaryOperator" and v.op == "&":
+            ok, why = True, "address-of expression"
+        else:
+            p = access_path(v)
+            conds = fc.conds(st)
+            if p and any(c[0] != "switch" and access_path(c[0]) == p and c[1] is True for c in conds):
+                ok, why = True, "%s tested non-NULL" % p
+            elif p and p.endswith("->exec"):
+                # the JIT entry point: valid once the chunk test has passed (C05 D2a decides that)
+                ok, why = any(c[0] != "switch" and (access_path(c[0]) or "").endswith("->chunk") and c[1] is True for c in conds), "JIT entry after the chunk test"
+        rep.check(ok, rule, where(f), "code_exec=%s" % (access_path(v) or unparse(v))[:40],
+                  "code_exec is given a definite function pointer (%s)" % why,
+                  "program->code_exec is set to `%s`, which may be NULL here: the detached OrcCode (orccode->exec) is called directly by generated "
+                  "wrappers, so a NULL fallback crashes instead of emulating" % unparse(v)[:60], line=st.line)
+    if n < 4:
+        raise AnalysisBroken("only %d stores into program->code_exec found in the compile driver" % n)
+    return n
+
+
+FMT_BOUNDED = ("snprintf", "vsnprintf")
+LENGTH_SINKS = {"memcpy": 2, "memmove": 2, "strncpy": 2, "memset": 2, "fwrite": 2}
+
+
+def check_snprintf_lengths(db, funcs, rep, rule):
+    """snprintf/vsnprintf return the length the output WOULD have had, which can exceed the buffer.  A variable holding
+    that result may be used as a copy length, subscript or pointer advance only where it is known to be smaller than the
+    size that was passed (or the use is preceded by a clamp)."""
+    n = 0
+    for f in funcs:
+        sd = None
+        for c in f.calls():
+            if c.name not in FMT_BOUNDED:
+                continue
+            p = c.parent
+            while p is not None and p.k in ("CStyleCastExpr", "ParenExpr", "ImplicitCastExpr"):
+                p = p.parent
+            var = None
+            if p is not None and p.k == "BinaryOperator" and p.op == "=" and strip_casts(p.c[1]) is c:
+                var = access_path(p.c[0])
+            elif p is not None and p.k == "VarDecl":
+                var = p.name
+            if var is None:
+                continue
+            size = c.args()[1]
+            fc = Facts(f)
+            for u in f.walk():
+                sink = None
+                if u.k == "CallExpr" and u.name in LENGTH_SINKS and len(u.args()) > LENGTH_SINKS[u.name]:
+                    if var in paths_in(u.args()[LENGTH_SINKS[u.name]]):
+                        sink = "%s length" % u.name
+                elif u.k == "ArraySubscriptExpr" and var in paths_in(u.c[1]):
+                    sink = "subscript"
+                elif u.k == "CompoundAssignOperator" and u.op == "+=" and var in paths_in(u.c[1]) and "*" in (u.c[0].get("ty") or ""):
+                    sink = "pointer advance"
+                if sink is None or not f.dominates(c, u):
+                    continue
+                n += 1
+                ub = upper_bound(fc.conds(u), var, None)
+                szv = strip_casts(size).v
+                ok = ub is not None and szv is not None and ub <= szv - 1
+                rep.check(ok, rule, where(f), "%s->%s" % (c.name, sink),
+                          "result of %s is bounded by the buffer size before it is used as %s" % (c.name, sink),
+                          "%s uses the return value of %s (`%s`) as %s without bounding it by the buffer size %s: for output longer than the buffer the "
+                          "value exceeds what was written and the access runs past the buffer" % (f.name, c.name, var, sink, unparse(size)), line=u.line)
+    return n
